@@ -57,6 +57,7 @@ def run(ctx):
     seqprims.check_close(ctx, "T-FIN")
     seqprims.check_receive(ctx, "T-RECV")
     seqprims.check_send(ctx, "T-SEND")
+    seqprims.check_accept(ctx, "T-ACCEPT")
     # a FIN (one sequence number, no text) must stay on the retransmission queue until it is acknowledged
     rp_ = prog.method("Tcb", "remove_acked_from_retransmission")
     pr_ = c01.removal_rule(prog, rp_)
